@@ -130,7 +130,20 @@ where
         use self::frame::read_frame_into;
 
         while read_frame_into(&mut self.inner, &mut self.buf)?.is_some() {
-            f(&self.buf, &mut self.block)?;
+            if let Err(e) = f(&self.buf, &mut self.block) {
+                // The frame was taken from the stream: keep the position in step with it and do
+                // not serve the data of the rejected block.
+                let frame_size = self.buf.len() as u64;
+
+                self.block.set_position(self.position);
+                self.block.set_size(frame_size);
+                self.block.data_mut().set_position(0);
+                self.block.data_mut().resize(0);
+
+                self.position += frame_size;
+
+                return Err(e);
+            }
 
             self.block.set_position(self.position);
             self.position += self.block.size();
